@@ -11,7 +11,7 @@
    `pool_src_switches` is read from the Go source on every run (Gen/PoolSrc.v).  The theorems are stated for the
    code that is in the tree: if one of the repaired spots regresses, `exact` below no longer type-checks. *)
 From Coq Require Import List ZArith Bool.
-From MV Require Import Model.Pool Model.PoolMx Gen.PoolSrc Proofs.Pool Proofs.PoolMx Model.PoolInit Proofs.PoolInit.
+From MV Require Import Model.Pool Model.PoolMx Gen.PoolSrc Proofs.Pool Proofs.PoolMx Model.PoolInit Proofs.PoolInit Model.PoolDestroy Proofs.PoolDestroy.
 Import ListNotations.
 Open Scope Z_scope.
 
@@ -219,4 +219,29 @@ Print Assumptions c09_connect_books.
 Example c09_init_example :
   irun [0;0;1;0;1;0;1;1;1]%nat (mx_init_cfg poolinit_src_mx_dial_locked) =
     ([[]; []], mkISh false true true 0%nat 0 false).
+Proof. vm_compute. reflexivity. Qed.
+
+(* The end of a stream on a connection that must not be reused (closeConn / shouldCloseConn set) against a CONCURRENT
+   NewStream (Model/PoolDestroy.v).  `pooldestroy_src_http_close_first` is read from the source: does http
+   activeClient.OnDestroyStream close the connection BEFORE onStreamDestroy appends it back (today: yes; the xprotocol
+   ping-pong pool closes and returns, it never appends).  Under EVERY schedule of the destroy goroutine and a concurrent
+   NewStream: the connection is never handed to that NewStream, and when the destroy is done it is out of the idle list
+   with its closed flag set. *)
+Theorem c09_destroy_close_before_append : forall sched,
+  destroy_good (drun sched (destroy_cfg (http_destroy_prog pooldestroy_src_http_close_first))) = true /\
+  destroy_good (drun sched (destroy_cfg pp_destroy_prog)) = true.
+Proof. exact (fun sched => conj (http_destroy_close_first_safe sched) (pp_destroy_safe sched)). Qed.
+Print Assumptions c09_destroy_close_before_append.
+
+(* With the order swapped (append, then close) a schedule hands the dirty connection to the concurrent NewStream, although
+   every quiescent state - and so every sequential history - looks the same. *)
+Definition c09_destroy_append_first_statement : Prop :=
+  forall sched, d_leased (snd (drun sched (destroy_cfg (http_destroy_prog false)))) = false.
+Theorem c09_destroy_append_first_refuted : ~ c09_destroy_append_first_statement.
+Proof. intros H. destruct http_destroy_append_first_bad as [sched Hs]. rewrite (H sched) in Hs. discriminate. Qed.
+Print Assumptions c09_destroy_append_first_refuted.
+
+Example c09_destroy_example :
+  drun [0;1;0;1;0;1;0;1;0;1;0;1;0;1;0;1;0;1;0;1]%nat (destroy_cfg (http_destroy_prog pooldestroy_src_http_close_first)) =
+    ([[]; []], mkDSh false true true false false).
 Proof. vm_compute. reflexivity. Qed.
